@@ -21,3 +21,4 @@ size_t g_b64_g;
 const void *g_der_buf; const struct ECDSA_SIG_st *g_der_sig;
 int g_lib_fail; unsigned g_ver_calls;
 const void *g_rs_buf, *g_rs_r, *g_rs_s; size_t g_rs_rn, g_rs_sn;
+const char *g_jwk_tracked_str;
